@@ -36,7 +36,7 @@ def bounds(tier, seed):
 
 
 EST = ["T0", "T1", "S", "K2", "V"]
-CVS = ["default", "kfold2", "kfold3", "shuffle", "blockkfold", "blockshuffle"]
+CVS = ["default", "kfold2", "kfold3", "shuffle", "blockkfold", "blockshuffle", "shuffle_tt"]
 SCORERS = [None, "r2", "neg_mean_squared_error", "neg_mean_absolute_error", "callable"]
 
 
@@ -106,7 +106,7 @@ def cases(tier, seed):
                                 yield dict(kind="tts", ds=ds, mode=mode, seed=sd, test_size=ts, vec=vec, w=w, shape="series")
     for perm in itertools.permutations([1e-4, 1e-1, 1e2]):
         for mind in ("default", "two"):
-            for cv in ("default", "kfold2", "blockkfold"):
+            for cv in ("default", "kfold2", "blockkfold", "shuffle_tt"):     # shuffle_tt: training rows are NOT everything outside the test rows
                 for delayed in (False, True):
                     for sc in (None, "neg_mean_absolute_error"):
                         if sc is not None and (mind == "two" or cv == "default"):
@@ -219,6 +219,9 @@ def make_cv(key):
         return ShuffleSplit(n_splits=2, test_size=0.3, random_state=3)
     if key == "blockkfold":
         return vd.BlockKFold(shape=(2, 4), n_splits=2, shuffle=True, random_state=1)
+    if key == "shuffle_tt":
+        # train_size + test_size < 1: some rows are in neither set (seed C12-12: folds replayed as "complement of the test set")
+        return ShuffleSplit(n_splits=2, test_size=0.3, train_size=0.4, random_state=5)
     if key == "blockkfold_s":
         return vd.BlockKFold(spacing=1.0, n_splits=2, shuffle=True, random_state=1)
     if key == "blockshuffle_s":
